@@ -18,7 +18,6 @@ import (
 	"sync"
 
 	"cuelabs.dev/go/oci/ociregistry"
-	"cuelabs.dev/go/oci/ociregistry/ocimem"
 )
 
 type tagged struct {
@@ -57,6 +56,9 @@ type recorder struct {
 	fired    bool
 	cut      string // Coq err term when PushBlob saw its stream fail during the current step
 	delay    func()
+	// live: the readers handed out are the inner member's own (asked a second time), not
+	// replays of the recorded bytes - for members whose readers are real streams (ociclient)
+	live bool
 }
 
 func newRecorder(name string, inner ociregistry.Interface, idPrefix string) *recorder {
@@ -190,7 +192,7 @@ func (r *recorder) unitCall(op string, f func() error) error {
 	return nil
 }
 
-func (r *recorder) readCall(op string, f func() (ociregistry.BlobReader, error)) (ociregistry.BlobReader, error) {
+func (r *recorder) readCall(ctx context.Context, op string, f func() (ociregistry.BlobReader, error)) (ociregistry.BlobReader, error) {
 	fl := r.begin()
 	if fl != nil && fl.Before {
 		err := r.wrapErr(injected(fl))
@@ -214,20 +216,96 @@ func (r *recorder) readCall(op string, f func() (ociregistry.BlobReader, error))
 		return nil, err
 	}
 	r.end(op, fmt.Sprintf("Ok (RRead %s %s)", descTerm(desc), bterm(string(data))))
-	return ocimem.NewBytesReader(data, desc), nil
+	if r.live {
+		// the recording is made; what is handed out is the member's own stream
+		if rd2, err2 := f(); err2 == nil && rd2 != nil {
+			return &liveReader{rec: r, rd: rd2}, nil
+		}
+	}
+	return r.newStreamReader(ctx, data, desc), nil
+}
+
+// liveReader passes the inner member's reader through, tagging its errors.
+type liveReader struct {
+	rec *recorder
+	rd  ociregistry.BlobReader
+}
+
+func (l *liveReader) Descriptor() ociregistry.Descriptor { return l.rd.Descriptor() }
+func (l *liveReader) Close() error                       { return l.rec.wrapErr(l.rd.Close()) }
+func (l *liveReader) Read(p []byte) (int, error) {
+	n, err := l.rd.Read(p)
+	if err != nil && err != io.EOF {
+		err = &tagged{l.rec.name, err}
+	}
+	return n, err
+}
+
+// streamReader is what a recording member hands out: the content as a STREAM, like the
+// response body an ociclient member returns - it delivers the bytes a few at a time, it
+// cannot be read once it has been closed, and it cannot be read once the context of the
+// call that produced it has been cancelled.  (ocimem readers ignore Close and contexts
+// altogether, which would hide a unifier that hands its caller a reader it has closed, or
+// whose context it has cancelled.)
+type streamReader struct {
+	rec    *recorder
+	ctx    context.Context
+	desc   ociregistry.Descriptor
+	mu     sync.Mutex
+	data   []byte
+	closed bool
+}
+
+var (
+	errReadClosed   = errors.New("read on closed member reader")
+	errReadCanceled = errors.New("read on member reader whose call context was cancelled")
+)
+
+func (r *recorder) newStreamReader(ctx context.Context, data []byte, desc ociregistry.Descriptor) *streamReader {
+	return &streamReader{rec: r, ctx: ctx, desc: desc, data: data}
+}
+
+func (s *streamReader) Descriptor() ociregistry.Descriptor { return s.desc }
+
+func (s *streamReader) Read(p []byte) (int, error) {
+	s.mu.Lock()
+	defer s.mu.Unlock()
+	if s.closed {
+		return 0, &tagged{s.rec.name, errReadClosed}
+	}
+	if s.ctx.Err() != nil {
+		return 0, &tagged{s.rec.name, errReadCanceled}
+	}
+	if len(s.data) == 0 {
+		return 0, io.EOF
+	}
+	n := len(p)
+	if n > 7 {
+		n = 7 // several Reads per content: a caller that stops after the first one is seen
+	}
+	n = copy(p[:n], s.data)
+	s.data = s.data[n:]
+	return n, nil
+}
+
+func (s *streamReader) Close() error {
+	s.mu.Lock()
+	defer s.mu.Unlock()
+	s.closed = true
+	return nil
 }
 
 func (r *recorder) GetBlob(ctx context.Context, repo string, dig ociregistry.Digest) (ociregistry.BlobReader, error) {
-	return r.readCall(opGetBlob(repo, string(dig)), func() (ociregistry.BlobReader, error) { return r.inner.GetBlob(ctx, repo, dig) })
+	return r.readCall(ctx, opGetBlob(repo, string(dig)), func() (ociregistry.BlobReader, error) { return r.inner.GetBlob(ctx, repo, dig) })
 }
 func (r *recorder) GetBlobRange(ctx context.Context, repo string, dig ociregistry.Digest, o0, o1 int64) (ociregistry.BlobReader, error) {
-	return r.readCall(opGetBlobRange(repo, string(dig), o0, o1), func() (ociregistry.BlobReader, error) { return r.inner.GetBlobRange(ctx, repo, dig, o0, o1) })
+	return r.readCall(ctx, opGetBlobRange(repo, string(dig), o0, o1), func() (ociregistry.BlobReader, error) { return r.inner.GetBlobRange(ctx, repo, dig, o0, o1) })
 }
 func (r *recorder) GetManifest(ctx context.Context, repo string, dig ociregistry.Digest) (ociregistry.BlobReader, error) {
-	return r.readCall(opGetManifest(repo, string(dig)), func() (ociregistry.BlobReader, error) { return r.inner.GetManifest(ctx, repo, dig) })
+	return r.readCall(ctx, opGetManifest(repo, string(dig)), func() (ociregistry.BlobReader, error) { return r.inner.GetManifest(ctx, repo, dig) })
 }
 func (r *recorder) GetTag(ctx context.Context, repo string, tag string) (ociregistry.BlobReader, error) {
-	return r.readCall(opGetTag(repo, tag), func() (ociregistry.BlobReader, error) { return r.inner.GetTag(ctx, repo, tag) })
+	return r.readCall(ctx, opGetTag(repo, tag), func() (ociregistry.BlobReader, error) { return r.inner.GetTag(ctx, repo, tag) })
 }
 func (r *recorder) ResolveBlob(ctx context.Context, repo string, dig ociregistry.Digest) (ociregistry.Descriptor, error) {
 	return r.descCall(opResolveBlob(repo, string(dig)), func() (ociregistry.Descriptor, error) { return r.inner.ResolveBlob(ctx, repo, dig) })
